@@ -2,9 +2,8 @@ import SC.Proofs.KernSmall
 import SC.Proofs.KernBlocks
 import SC.Model.AsmShape
 import SC.Gen.AsmFacts
-import SC.Proofs.AsmSmall
-import SC.Proofs.AsmLoop
-import SC.Proofs.AsmCountLoop
+import SC.Proofs.AsmWhole
+import SC.Model.Spec
 /-!
 # C13 — SIMD byte kernels equal their scalar definition at every length and alignment
 
@@ -126,104 +125,56 @@ theorem source_count_loops (sym : String) (hs : sym ∈ ["countbody", "countbody
   have hg := extracted_geometry.2 sym hs
   exact count_loops P (by rcases hP with h | h; exact Or.inl (h.trans hg.1); exact Or.inr (h.trans hg.2.1)) p mem base len hlen
 
-/-! #### instruction level: the `len < 16` search paths as they stand in the working tree
+/-! #### instruction level: the five kernel bodies as they stand in the working tree
 
-`Gen.Asm.small_*` are the blocks `small`, `endofpage`, `failure` of the three search bodies, **regenerated instruction
-by instruction** (mnemonics, registers, displacements, immediates, branch targets) by `tools/asmfacts.py`; `Asm.run` is
-an interpreter for that subset of amd64 (`SC/Model/Asm.lean`).  From the state the bodies' prologues establish (`SI` =
-data, `BX` = length, the needle byte in every lane of `X0`), running the real instruction sequence stores the scalar
-definition's answer through `R8` and performs one 16-byte load that cannot fault — for every memory, base address,
-length below 16 and needle byte.  (Not modelled: the three-instruction lane broadcast of the prologue, the ABI wrappers.) -/
+`Gen.Asm.body_*` are the five bodies (`indexbytebody`, `indexbytebodyCase`, `indexByteBodyNonASCII`, `countbody`,
+`countbodyCase`) **regenerated instruction by instruction** by `tools/asmfacts.py`: every label in source order, every
+mnemonic with its registers, displacements, immediates and branch targets (the AVX2 instructions, outside the modelled
+subset, appear as `STUCK`).  `Asm.run` (`SC/Model/Asm.lean`) interprets that subset of amd64 — general registers, XMM
+lanes, ZF/CF/signed-less, fall-through between labels — recording every 16-byte load.
 
-theorem instruction_level_small (mem : Mem) (base len : Nat) (c : UInt8) (junk : Asm.Reg → Nat) (jx : Nat → UInt8) (jz jc : Bool)
-    (h16 : len < 16) (hb : base + 32 < 2 ^ 64) :
-    (Asm.runSmall Gen.Asm.small_indexbytebody (Asm.init mem base len c junk jx jz jc)).out = some (specIndex (fun b => b == c) mem base len) ∧
-    (Asm.runSmall Gen.Asm.small_indexbytebodyCase (Asm.init mem base len c junk jx jz jc)).out =
-        some (specIndex (fun b => (b ||| 0x20) == c) mem base len) ∧
-    (Asm.runSmall Gen.Asm.small_indexByteBodyNonASCII (Asm.init mem base len c junk jx jz jc)).out =
-        some (specIndex (fun b => decide (b ≥ 0x80)) mem base len) := by
-  refine ⟨?_, ?_, ?_⟩
-  · rw [(Asm.small_indexbytebody_correct mem base len c junk jx jz jc h16 hb).1, small_correct _ mem base len h16]
-  · rw [(Asm.small_indexbytebodyCase_correct mem base len c junk jx jz jc h16 hb).1, small_correct _ mem base len h16]
-  · rw [(Asm.small_indexByteBodyNonASCII_correct mem base len c junk jx jz jc h16 hb).1, small_correct _ mem base len h16]
+`whole_bodies`: from **any** machine state with `SI` = data, `BX` = length, the needle byte in `AL`, running a body from its
+first instruction (lane broadcast `MOVD/PUNPCKLBW/PUNPCKLBW/PSHUFL`, `ORL $32` for letters, dispatch on the length, the
+`len < 16` path with its page test, or the SSE loop with its overlapping / masked last block) stores the scalar definition's
+answer through `R8`, and every byte it loads lies in a page that holds a byte of the argument — for every memory, base
+address, needle byte and **every length** when the CPU feature flag is off, every length up to the AVX2 threshold when it
+is on.  The loop parts are proved by invariants over machine states (`Proofs/AsmLoop.lean`, `AsmCountLoop.lean`).
+Not modelled: the AVX2 loops (block level only), the ABI wrappers that load `SI/BX/AL/R8` and jump to a body. -/
 
-/-- every load those instruction sequences perform lies in a 4096-byte page that holds a byte of the argument -/
-theorem instruction_level_small_safe (mem : Mem) (base len : Nat) (c : UInt8) (junk : Asm.Reg → Nat) (jx : Nat → UInt8) (jz jc : Bool)
-    (h16 : len < 16) (h0 : 0 < len) (hb : base + 32 < 2 ^ 64) :
-    ∀ prog ∈ [Gen.Asm.small_indexbytebody, Gen.Asm.small_indexbytebodyCase, Gen.Asm.small_indexByteBodyNonASCII],
-    ∀ ld ∈ (Asm.runSmall prog (Asm.init mem base len c junk jx jz jc)).loads, ∀ a, ld.1 ≤ a → a < ld.1 + ld.2 →
-      ∃ b, base ≤ b ∧ b < base + len ∧ a / 4096 = b / 4096 := by
-  intro prog hprog
-  simp only [List.mem_cons, List.mem_nil_iff, or_false] at hprog
-  rcases hprog with rfl | rfl | rfl
-  · rw [(Asm.small_indexbytebody_correct mem base len c junk jx jz jc h16 hb).2]; exact small_loads_safe _ mem base len h16 h0
-  · rw [(Asm.small_indexbytebodyCase_correct mem base len c junk jx jz jc h16 hb).2]; exact small_loads_safe _ mem base len h16 h0
-  · rw [(Asm.small_indexByteBodyNonASCII_correct mem base len c junk jx jz jc h16 hb).2]; exact small_loads_safe _ mem base len h16 h0
-
-/-- **the SSE search loops, instruction by instruction.**  `Gen.Asm.sse_*` are the labels `sse … ssesuccess` of the three
-    search bodies as they stand in the working tree (execution falls through between labels).  From any machine state
-    with `SI` = `DI` = data, `BX` = length ≥ 16 and the lanes the prologue sets, running them stores the scalar definition's
-    answer through `R8`, and every 16-byte load lies inside the argument — for every memory, base, length and needle byte.
-    The proof is a loop invariant over machine states (`Proofs/AsmLoop.lean`), by induction on the blocks still to examine. -/
-theorem instruction_level_sse_search (mem : Mem) (base len : Nat) (c : UInt8) (s : Asm.St) (f : Nat)
-    (h16 : 16 ≤ len) (hb : base + len + 32 < 2 ^ 63)
-    (hSI : s.r .SI = base) (hDI : s.r .DI = base) (hBX : s.r .BX = len) (hX0 : ∀ j, s.x .X0 j = c) (hX2 : ∀ j, s.x .X2 j = 0x20)
-    (hmem : s.mem = mem) (hout : s.out = none) (hl : s.loads = []) (hf : 9 * (len + 1) + 16 ≤ f) :
-    ((Asm.run Gen.Asm.sse_indexbytebody f (Asm.block Gen.Asm.sse_indexbytebody "sse") s).out =
+theorem whole_bodies (mem : Mem) (base len : Nat) (c : UInt8) (s : Asm.St) (f : Nat)
+    (hb : base + len + 32 < 2 ^ 62)
+    (hSI : s.r .SI = base) (hBX : s.r .BX = len) (hAL : s.r .AX % 256 = c.toNat)
+    (hmem : s.mem = mem) (hout : s.out = none) (hl : s.loads = [])
+    (hcfg : s.avx2 = false ∨ len ≤ 32) (hf : 9 * (len + 1) + 50 ≤ f) :
+    -- case-sensitive byte search
+    ((Asm.run Gen.Asm.body_indexbytebody f (Asm.block Gen.Asm.body_indexbytebody "entry") s).out =
         some (specIndex (fun b => b == c) mem base len) ∧
-      ∀ ld ∈ (Asm.run Gen.Asm.sse_indexbytebody f (Asm.block Gen.Asm.sse_indexbytebody "sse") s).loads,
-        base ≤ ld.1 ∧ ld.1 + ld.2 ≤ base + len) ∧
-    ((Asm.run Gen.Asm.sse_indexbytebodyCase f (Asm.block Gen.Asm.sse_indexbytebodyCase "sse") s).out =
-        some (specIndex (fun b => (b ||| 0x20) == c) mem base len) ∧
-      ∀ ld ∈ (Asm.run Gen.Asm.sse_indexbytebodyCase f (Asm.block Gen.Asm.sse_indexbytebodyCase "sse") s).loads,
-        base ≤ ld.1 ∧ ld.1 + ld.2 ≤ base + len) ∧
-    ((Asm.run Gen.Asm.sse_indexByteBodyNonASCII f (Asm.block Gen.Asm.sse_indexByteBodyNonASCII "sse") s).out =
+      Asm.Safe base len (Asm.run Gen.Asm.body_indexbytebody f (Asm.block Gen.Asm.body_indexbytebody "entry") s).loads) ∧
+    -- letter needle: both sides OR-ed with 0x20
+    ((Asm.run Gen.Asm.body_indexbytebodyCase f (Asm.block Gen.Asm.body_indexbytebodyCase "entry") s).out =
+        some (specIndex (fun b => (b ||| 0x20) == (c ||| 0x20)) mem base len) ∧
+      Asm.Safe base len (Asm.run Gen.Asm.body_indexbytebodyCase f (Asm.block Gen.Asm.body_indexbytebodyCase "entry") s).loads) ∧
+    -- first byte ≥ 0x80
+    ((Asm.run Gen.Asm.body_indexByteBodyNonASCII f (Asm.block Gen.Asm.body_indexByteBodyNonASCII "entry") s).out =
         some (specIndex (fun b => decide (b ≥ 0x80)) mem base len) ∧
-      ∀ ld ∈ (Asm.run Gen.Asm.sse_indexByteBodyNonASCII f (Asm.block Gen.Asm.sse_indexByteBodyNonASCII "sse") s).loads,
-        base ≤ ld.1 ∧ ld.1 + ld.2 ≤ base + len) :=
-  ⟨Asm.sse_indexbytebody_correct mem base len c s f h16 hb hSI hDI hBX hX0 hX2 hmem hout hl (by omega),
-   Asm.sse_indexbytebodyCase_correct mem base len c s f h16 hb hSI hDI hBX hX0 hX2 hmem hout hl (by omega),
-   Asm.sse_indexByteBodyNonASCII_correct mem base len c s f h16 hb hSI hDI hBX (fun _ => trivial) hX2 hmem hout hl (by omega)⟩
-
-/-- **the SSE counting loops, instruction by instruction** (labels `sse … end` of `countbody` and `countbodyCase`): block
-    loop with the accumulator in `R12`, then the overlapping last block masked to its top `len mod 16` lanes
-    (`ANDQ $15` / `MOVQ $0xFFFF; SARQ; SALQ` / `ANDQ; POPCNTL`).  The stored count is the scalar count and every load lies
-    inside the argument, for every memory, base, length ≥ 16 and needle byte. -/
-theorem instruction_level_sse_count (mem : Mem) (base len : Nat) (c : UInt8) (s : Asm.St) (f : Nat)
-    (h16 : 16 ≤ len) (hb : base + len + 32 < 2 ^ 62)
-    (hSI : s.r .SI = base) (hDI : s.r .DI = base) (hBX : s.r .BX = len) (hR12 : s.r .R12 = 0)
-    (hX0 : ∀ j, s.x .X0 j = c) (hX2 : ∀ j, s.x .X2 j = 0x20)
-    (hmem : s.mem = mem) (hout : s.out = none) (hl : s.loads = []) (hf : 9 * (len + 1) + 24 ≤ f) :
-    ((Asm.run Gen.Asm.ssecnt_countbody f (Asm.block Gen.Asm.ssecnt_countbody "sse") s).out =
+      Asm.Safe base len (Asm.run Gen.Asm.body_indexByteBodyNonASCII f (Asm.block Gen.Asm.body_indexByteBodyNonASCII "entry") s).loads) ∧
+    -- byte counts
+    ((Asm.run Gen.Asm.body_countbody f (Asm.block Gen.Asm.body_countbody "entry") s).out =
         some ((specCount (fun b => b == c) mem base len : Nat) : Int) ∧
-      ∀ ld ∈ (Asm.run Gen.Asm.ssecnt_countbody f (Asm.block Gen.Asm.ssecnt_countbody "sse") s).loads,
-        base ≤ ld.1 ∧ ld.1 + ld.2 ≤ base + len) ∧
-    ((Asm.run Gen.Asm.ssecnt_countbodyCase f (Asm.block Gen.Asm.ssecnt_countbodyCase "sse") s).out =
-        some ((specCount (fun b => (b ||| 0x20) == c) mem base len : Nat) : Int) ∧
-      ∀ ld ∈ (Asm.run Gen.Asm.ssecnt_countbodyCase f (Asm.block Gen.Asm.ssecnt_countbodyCase "sse") s).loads,
-        base ≤ ld.1 ∧ ld.1 + ld.2 ≤ base + len) :=
-  ⟨Asm.ssecnt_countbody_correct mem base len c s f h16 hb hSI hDI hBX hR12 hX0 hX2 hmem hout hl hf,
-   Asm.ssecnt_countbodyCase_correct mem base len c s f h16 hb hSI hDI hBX hR12 hX0 hX2 hmem hout hl hf⟩
+      Asm.Safe base len (Asm.run Gen.Asm.body_countbody f (Asm.block Gen.Asm.body_countbody "entry") s).loads) ∧
+    ((Asm.run Gen.Asm.body_countbodyCase f (Asm.block Gen.Asm.body_countbodyCase "entry") s).out =
+        some ((specCount (fun b => (b ||| 0x20) == (c ||| 0x20)) mem base len : Nat) : Int) ∧
+      Asm.Safe base len (Asm.run Gen.Asm.body_countbodyCase f (Asm.block Gen.Asm.body_countbodyCase "entry") s).loads) :=
+  ⟨Asm.whole_indexbytebody mem base len c s f hb hSI hBX hAL hmem hout hl hcfg (by omega),
+   Asm.whole_indexbytebodyCase mem base len c s f hb hSI hBX hAL hmem hout hl hcfg (by omega),
+   Asm.whole_indexByteBodyNonASCII mem base len c s f hb hSI hBX hmem hout hl hcfg (by omega),
+   Asm.whole_countbody mem base len c s f hb hSI hBX hAL hmem hout hl (by rcases hcfg with h | h; exact Or.inl h; exact Or.inr (by omega)) (by omega),
+   Asm.whole_countbodyCase mem base len c s f hb hSI hBX hAL hmem hout hl (by rcases hcfg with h | h; exact Or.inl h; exact Or.inr (by omega)) (by omega)⟩
 
-/-- the `len < 16` counting paths of `countbody` and `countbodyCase`, instruction by instruction: the count stored through
-    `R8` is the scalar count, and the single load cannot fault -/
-theorem instruction_level_count_small (mem : Mem) (base len : Nat) (c : UInt8) (junk : Asm.Reg → Nat) (jx : Nat → UInt8) (jz jc : Bool)
-    (h16 : len < 16) (hb : base + 32 < 2 ^ 64) :
-    (Asm.runSmall Gen.Asm.small_countbody (Asm.init mem base len c junk jx jz jc)).out =
-        some ((specCount (fun b => b == c) mem base len : Nat) : Int) ∧
-    (Asm.runSmall Gen.Asm.small_countbodyCase (Asm.init mem base len c junk jx jz jc)).out =
-        some ((specCount (fun b => (b ||| 0x20) == c) mem base len : Nat) : Int) ∧
-    (0 < len → ∀ prog ∈ [Gen.Asm.small_countbody, Gen.Asm.small_countbodyCase],
-      ∀ ld ∈ (Asm.runSmall prog (Asm.init mem base len c junk jx jz jc)).loads, ∀ a, ld.1 ≤ a → a < ld.1 + ld.2 →
-        ∃ b, base ≤ b ∧ b < base + len ∧ a / 4096 = b / 4096) := by
-  refine ⟨?_, ?_, ?_⟩
-  · rw [(Asm.small_countbody_correct mem base len c junk jx jz jc h16 hb).1, cntSmall_correct _ mem base len h16]
-  · rw [(Asm.small_countbodyCase_correct mem base len c junk jx jz jc h16 hb).1, cntSmall_correct _ mem base len h16]
-  · intro h0 prog hprog
-    simp only [List.mem_cons, List.mem_nil_iff, or_false] at hprog
-    rcases hprog with rfl | rfl
-    · rw [(Asm.small_countbody_correct mem base len c junk jx jz jc h16 hb).2]; exact cntSmall_loads_safe _ mem base len h16 h0
-    · rw [(Asm.small_countbodyCase_correct mem base len c junk jx jz jc h16 hb).2]; exact cntSmall_loads_safe _ mem base len h16 h0
+/-- the letter kernels compute the library's fold-equality of bytes: for an ASCII letter `c`, `(b ||| 0x20) == (c ||| 0x20)` is
+    `S.byteEqFold c b` -/
+theorem letter_predicate : ∀ c : UInt8, S.isAlpha c = true → ∀ b : UInt8, ((b ||| 0x20) == (c ||| 0x20)) = S.byteEqFold c b := by
+  decide +kernel
 
 /-- the `len < 16` counting path: scalar definition, and no load can fault next to an unmapped page -/
 theorem count_small (p : UInt8 → Bool) (mem : Mem) (base len : Nat) (hlen : len < 16) :
